@@ -103,6 +103,10 @@ def snapshot_diff(paths, before, after):
             aa = a[1] if a else b''
             if bb != aa:
                 out.append((cl, 'bytes', bb, aa))
+            # the directory entry itself: sync and fix (levels it may write) create a missing parity file before anything else
+            # (parity_create, O_CREAT); every other appearance or disappearance of a parity file is a change of its own
+            if (b is None) != (a is None):
+                out.append((cl, 'created-file' if b is None else 'removed-file', p, len(aa)))
             continue
         if b == a:
             continue
@@ -271,6 +275,8 @@ def observe(arr, paths, cmd, opts=(), fail=None, extra_env=None, timeout=120):
     # classes from the snapshot: which objects changed at all
     sc = set()
     for cl, what, b, a in o.diff:
+        if cl[0] == 'parity' and what != 'bytes':
+            continue
         if cl[0] == 'parity':
             n = min(len(b), len(a))
             if b[:n] != a[:n]:
